@@ -24,7 +24,7 @@ from .. import batchaxis as ba
 from .. import nf, vg
 from ..core import Ctx
 from ..envs import EnvA
-from ..model import AnalysisError
+from ..model import AnalysisError, alpha_key
 from ..tables import routing as T
 from .C04 import uniform_keys, tuple_funcs
 
@@ -163,6 +163,7 @@ def run(ctx: Ctx):
     ctx.sample({"forwards_analysed": n_forward, "hits": n_hits, "td_i_row_uniform": uni_i})
     normalization(ctx)
     feature_axis(ctx)
+    deterministic_inference(ctx)
     # replicated rows must keep their instance (shared with C12.a): a layout mismatch between the replicated state and the
     # replicated embeddings makes an instance's result depend on its batch-mates
     from . import C12
@@ -250,6 +251,81 @@ def reinterpreting_views(ctx: Ctx, lab: str, fi, rets) -> int:
                    f" order of {vg.show(t0, 2)}: the requested order is " + ("the same" if ok else "the OTHER one -- rows of different instances are interleaved for B > 1"),
                    construct=f"{lab}:reinterpreting-view")
     return n_sites
+
+
+RNG_FUNCS = {"torch.rand", "torch.randn", "torch.rand_like", "torch.randn_like", "torch.randperm", "torch.randint", "torch.multinomial", "torch.bernoulli", "torch.normal"}
+RNG_METHS = {"multinomial", "bernoulli", "uniform_", "normal_", "random_", "bernoulli_", "exponential_"}
+
+
+def deterministic_inference(ctx: Ctx):
+    """C14.g greedy inference is a function of the instance: a module on the inference path draws no random numbers unless the
+    draw is guarded by the training flag (`if self.training`, `if ... and train`).  A draw in `forward` makes the result of an
+    instance depend on the state of the global generator, i.e. on what was decoded before it and next to it."""
+    import ast as _ast
+    n_cls = 0
+    mods = [mi for name, mi in sorted(ctx.repo.modules.items()) if in_scope(name) or name in ("rl4co.models.nn.ops",)]
+    for mi in mods:
+        for cn, c in sorted(mi.classes.items()):
+            n_cls += 1
+            # helpers that only the constructor calls initialise parameters: not on the inference path
+            def self_calls(fnode):
+                return {x.func.attr for x in _ast.walk(fnode) if isinstance(x, _ast.Call) and isinstance(x.func, _ast.Attribute) and isinstance(x.func.value, _ast.Name) and x.func.value.id == "self"}
+            from_init = self_calls(c.methods["__init__"].node) if "__init__" in c.methods else set()
+            from_rest = set().union(*[self_calls(mm.node) for mm in c.methods.values() if mm.name != "__init__"]) if c.methods else set()
+            for m in c.methods.values():
+                if m.name.startswith("__") or m.name in ("reset_parameters", "init_parameters", "_init_weights"):
+                    continue
+                if m.name in from_init and m.name not in from_rest:
+                    continue
+                par = {}
+                for a in _ast.walk(m.node):
+                    for ch in _ast.iter_child_nodes(a):
+                        par[ch] = a
+                for call in _ast.walk(m.node):
+                    if not isinstance(call, _ast.Call):
+                        continue
+                    fn = _ast.unparse(call.func)
+                    is_rng = fn in RNG_FUNCS or (isinstance(call.func, _ast.Attribute) and call.func.attr in RNG_METHS)
+                    if not is_rng:
+                        continue
+                    # nn.Parameter(torch.rand(...)) / register_buffer(...) : initialisation, not a per-call draw
+                    up = par.get(call)
+                    if isinstance(up, _ast.Call) and _ast.unparse(up.func).split(".")[-1] in ("Parameter", "register_buffer"):
+                        continue
+                    guarded = False
+                    x = call
+                    while x in par:
+                        p_ = par[x]
+                        if isinstance(p_, _ast.If) and x in p_.body:
+                            names = {n.attr if isinstance(n, _ast.Attribute) else getattr(n, "id", "") for n in _ast.walk(p_.test)}
+                            if names & {"training", "train", "is_training"}:
+                                guarded = True
+                        x = p_
+                    ctx.repo.note(mi)
+                    ctx.ob("C14.g", f"{cn}.{m.name}:{fn}@inference", guarded, f"{mi.relpath}:{call.lineno}",
+                           f"`{_ast.unparse(call)[:70]}` in {cn}.{m.name}: " + ("only under the training flag" if guarded else
+                                                                                 "drawn on every call, also in eval mode -- greedy decoding of an instance depends on the global random state (what was decoded before / next to it)"),
+                           construct=f"{cn}.{m.name}:rng:{alpha_key(_ast.unparse(call))}")
+    # functional dropout has no training flag of its own: F.scaled_dot_product_attention(..., dropout_p=p) and F.dropout(x, p)
+    # drop entries whenever p > 0.  A module that forwards its configured rate must gate it on self.training.
+    n_dp = 0
+    for mi in mods:
+        for cn, c in sorted(mi.classes.items()):
+            for m in c.methods.values():
+                for call in _ast.walk(m.node):
+                    if not isinstance(call, _ast.Call):
+                        continue
+                    for k in call.keywords:
+                        if k.arg != "dropout_p" or not any(isinstance(x, _ast.Attribute) and isinstance(x.value, _ast.Name) and x.value.id == "self" and x.attr != "training" for x in _ast.walk(k.value)):
+                            continue
+                        n_dp += 1
+                        gated = any(isinstance(x, _ast.Attribute) and x.attr == "training" for x in _ast.walk(k.value))
+                        ctx.repo.note(mi)
+                        ctx.ob("C14.g", f"{cn}.{m.name}:dropout_p-gated-by-training", gated, f"{mi.relpath}:{call.lineno}",
+                               f"dropout_p={_ast.unparse(k.value)}: " + ("zero outside training" if gated else "the configured rate is applied in eval mode as well -- inference is stochastic"),
+                               construct=f"{cn}.{m.name}:dropout-in-eval")
+    if n_cls < 40 or n_dp < 2:
+        raise AnalysisError(f"only {n_cls} classes / {n_dp} dropout_p sites scanned")
 
 
 def _feeds_module(root, node) -> bool:
